@@ -50,6 +50,8 @@ func VC_C20_seq() {
 		verifReached("C20.seq.first-refused")
 	}
 	a2, _, e2 := acquireFromHolder(n2)
+	verifWitness("a1", uint64(a1))
+	verifWitness("a2", uint64(a2))
 	verifAssert(placeHolderIns.off >= off1, "C20.seq.off-monotone2")
 	if e2 == nil {
 		verifAssert(a2 >= min && a2+uintptr(n2) <= max, "C20.seq.inside-reserve2")
@@ -80,6 +82,8 @@ func VC_C20_conc2() {
 		})
 	}
 	verifJoin()
+	verifWitness("a0", uint64(a[0]))
+	verifWitness("a1", uint64(a[1]))
 	for t := 0; t < 2; t++ {
 		if ok[t] {
 			verifAssert(a[t] >= min && a[t]+uintptr(n[t]) <= max, "C20.conc.inside-reserve")
@@ -155,6 +159,7 @@ var vMmapAddrNames = [4]string{"mmapAddr0", "mmapAddr1", "mmapAddr2", "mmapAddr3
 // the reserve is in the text segment: writes must go through memory.WriteTo
 var vWriteToCalls int
 
+//verif:opt xcheck=off
 // VC_C20_acquire: three requests of goom's stub size through Acquire, each with the mmap
 // path working or failing arbitrarily: regions pairwise disjoint, large enough, and
 // writable through Write (which must deliver the bytes to the region).
